@@ -102,7 +102,12 @@ def configs(tier, seed):
                   M=[lit("float", num(2), "[hm]"), lit("float", num(4), "m"), lit("float", num(5))],
                   SL=[], HU=["[hm]", "m"], bounds=B(2, 1, 1, 1 if th else 0, fewhosts=True, custom=True),
                   modes=["base", "remote"] if th else ["remote"])
-    cfgs += [zeros, custom]
+    # readers change nothing: a logical expression compares two referenced numbers given in different units BEFORE
+    # one of them is injected / imported (again)
+    compare = dict(name="compare", T=[a_f, tpl("b", "float", num(k), u2), gx_c, tpl("n", "int", num(k + 1), u1)],
+                   M=[m_f2], SL=[], HU=[u2], bounds=B(3 if th else 2, 1 if th else 0, 1, 1 if th else 0, fewhosts=True, cmp=1),
+                   modes=["base"] if th else [])
+    cfgs += [zeros, custom, compare]
     return cfgs
 
 
@@ -155,6 +160,7 @@ MCRefKinds == {C.tla_str(set(bounds.get('kinds', ['inj', 'imp'])))}
   MaxMod = {bounds['mod']}
   MaxRef = {bounds['ref']}
   MaxLate = {bounds['late']}
+  MaxCmp = {bounds.get('cmp', 0)}
   CopyOnParse = {C.tla_str(copy_on_parse)}
   Emit = {C.tla_str(emit)}
 SPECIFICATION Spec
